@@ -279,10 +279,8 @@ Consume ==
          ic == IF co THEN ImplConsistent(st) ELSE TRUE
          \* outside class-only worlds the signature alone decides (no Impl prediction available);
          \* it needs at least two supplied positions there (the cross-position form of the artefact)
-         ks == IF co THEN KFStep(st)
-               ELSE "C10" \in Props /\
-                    \/ Len(st.call.pos) + Len(st.call.kwn) >= 2 /\ KFStep(st)
-                    \/ KF_pull_rank(W, MOf(st), st.call)
+         \* the level artefact is repaired; the only signature left is the rank artefact of dependent methods (C10)
+         ks == "C10" \in Props /\ KF_pull_rank(W, MOf(st), st.call)
      IN
        /\ bad' = IF c # ""
                  THEN bad \o (IF bad = "" THEN "" ELSE ",") \o c \o "@" \o ToString(l) \o "#" \o Flag(ks /\ ic)
